@@ -167,6 +167,7 @@ pub struct Gen {
     bg_groups: usize,
     /// warm-up cycles that leave their group alive (runs under group-slot pressure)
     pressure_left: usize,
+    thorough: bool,
 }
 
 pub fn pick_cfg(rng: &mut Rng, prop: &str, tier_thorough: bool) -> Cfg {
@@ -256,6 +257,12 @@ impl Gen {
         alphabet.truncate(asize.min(pool.len()));
         let all_lens = [0_usize, 1, 7, 8, 9, 16, 40];
         let mut lens: Vec<usize> = all_lens.iter().copied().filter(|_| rng.chance(2, 3)).collect();
+        // now and then a datum whose length needs a second byte (255, 256, 300)
+        for big in [255_usize, 256, 300] {
+            if rng.chance(1, 8) {
+                lens.push(big);
+            }
+        }
         if lens.is_empty() {
             lens = vec![8, 9];
         }
@@ -304,6 +311,7 @@ impl Gen {
             cycles_left: 0,
             bg_groups: if pressure { 13 } else { bg_groups },
             pressure_left,
+            thorough,
             rng,
         }
     }
@@ -599,7 +607,7 @@ impl Gen {
                 }
                 let path = self.rng.below(PATHS);
                 let hint = self.size_hint(view);
-                let sample = if hint > 4096 {
+                let sample = if hint > if self.thorough { 16_384 } else { 4_096 } {
                     (0..1024).map(|_| self.rng.below(1 << 20)).collect()
                 } else {
                     Vec::new()
@@ -652,7 +660,7 @@ impl Gen {
                 if c.len() > 14 {
                     return None;
                 }
-                let n = self.rng.range(2, 6);
+                let n = self.rng.range(2, if self.thorough { 12 } else { 6 });
                 let seeds = (0..n).map(|_| self.rng.next_u64()).collect();
                 let keep = if self.rng.chance(1, 3) && view.live().len() <= self.max_insts { view.free_slot() } else { None };
                 Some(Step::Slice { src: i, v: view.name(v), pred, seeds, keep })
